@@ -7,26 +7,29 @@ EXTENDS LRU
 (* Generator: every history of exactly MaxOps operations, with the results the
    A layer demands after each step.  hist is part of the state on purpose. *)
 
-VARIABLES gcap, gq, hist
-varsG == <<gcap, gq, hist>>
+VARIABLES gcap, gq, hist, flags
+varsG == <<gcap, gq, hist, flags>>
 
-InitG == gcap \in Caps /\ gq = <<>> /\ hist = <<>>
+InitG == gcap \in Caps /\ gq = <<>> /\ hist = <<>> /\ flags = [nt |-> FALSE, nilabs |-> FALSE]
 
-Snapshot(s) == [i \in 1..Len(s) |-> s[i].k]
-
+\* flags (computed by the specification, not by the harness):
+\*   nt     - the history is non-trivial: it contains an eviction, an overwrite or a nil Put
+\*   nilabs - it contains a nil Put of an absent key
 NextG == /\ Len(hist) < MaxOps
          /\ UNCHANGED gcap
          /\ \/ \E k \in Keys, v \in Vals \cup {NilV} :
                  /\ gq' = PutStep(gq, gcap, k, v)
-                 /\ hist' = Append(hist, [op |-> "put", k |-> k, v |-> v, rv |-> 0, ok |-> FALSE,
-                                          keys |-> Snapshot(gq')])
+                 /\ hist' = Append(hist, [op |-> "put", k |-> k, v |-> v, rv |-> 0, ok |-> FALSE])
+                 /\ flags' = [nt |-> flags.nt \/ v = NilV \/ IdxOf(gq, k) # 0 \/ Len(gq) = gcap,
+                              nilabs |-> flags.nilabs \/ (v = NilV /\ IdxOf(gq, k) = 0)]
             \/ \E k \in Keys :
                  /\ gq' = GetStep(gq, k)
                  /\ hist' = Append(hist, [op |-> "get", k |-> k, v |-> 0, rv |-> GetRes(gq, k).v,
-                                          ok |-> GetRes(gq, k).ok, keys |-> Snapshot(gq')])
+                                          ok |-> GetRes(gq, k).ok])
+                 /\ UNCHANGED flags
 
 SpecG == InitG /\ [][NextG]_varsG
 
 GenInv == AInv(gq, gcap)
-Emit == Len(hist) = MaxOps => PrintT(ToJson([cap |-> gcap, ops |-> hist]))
+Emit == Len(hist) = MaxOps => PrintT(ToJson([cap |-> gcap, ops |-> hist, nt |-> flags.nt, nilabs |-> flags.nilabs]))
 =============================================================================
